@@ -1825,6 +1825,8 @@ package ucfg
 //@ ensures [uint @C06] rvType(chased(v)) != old(tDuration) && rvType(chased(v)) != old(tRegexp) && 7 <= rvKind(chased(v)) && rvKind(chased(v)) <= 11 ==> err == nil && typeof(r) == *cfgUint && r.(*cfgUint) != nil && r.(*cfgUint).u == rvUint(chased(v))
 //@ ensures [float @C06] rvType(chased(v)) != old(tDuration) && rvType(chased(v)) != old(tRegexp) && (rvKind(chased(v)) == 13 || rvKind(chased(v)) == 14) ==> err == nil && typeof(r) == *cfgFloat && r.(*cfgFloat) != nil && same(r.(*cfgFloat).f, rvFloat(chased(v)))
 //@ ensures [bool @C06] rvType(chased(v)) != old(tDuration) && rvType(chased(v)) != old(tRegexp) && rvKind(chased(v)) == 1 ==> err == nil && typeof(r) == *cfgBool && r.(*cfgBool).b == rvBool(chased(v))
+//@ ensures [duration_as_text @C06] rvType(chased(v)) == old(tDuration) && err == nil ==> typeof(r) == *cfgString && r.(*cfgString) != nil && ctxof(r) == ctx
+//@ ensures [regexp_as_text @C06] rvType(chased(v)) == old(tRegexp) && err == nil ==> typeof(r) == *cfgString && r.(*cfgString) != nil && ctxof(r) == ctx
 //@ ensures [ctx @C06,C15] rvType(chased(v)) != old(tDuration) && rvType(chased(v)) != old(tRegexp) && 1 <= rvKind(chased(v)) && rvKind(chased(v)) <= 14 && rvKind(chased(v)) != 12 && err == nil ==> ctxof(r) == ctx && metaof(r) == old(opts.meta)
 
 // the old value handed to the slice merge is invalid or of slice kind (its callers dispatch on the kind)
